@@ -41,6 +41,9 @@ FINDINGS.update({
     "C22-omitempty-normalises": "with omitempty an empty non-nil []byte / slice / map reads back nil and -0.0 reads back +0.0 (isFieldEmpty treats "
                                 "len 0 and ±0 as empty)",
     "C22-gob-nil-empty": "gob (library): without omitempty an empty slice value reads back nil and a nil map value reads back empty",
+    "C22-void-overwrite-keeps-old-value": "overwriting a stored value with nothing (nil pointer / nil []byte / zero time, or a zero value under omitempty) "
+                                          "leaves the OLD value: the server's SetContentVoid does not clear a typed content (save 255, save 0 with "
+                                          "omitempty, read -> 255)",
     "C22-value-conversion": "a value does not come back through CatalogSave / CatalogRead",
 })
 
@@ -85,6 +88,7 @@ def val_finding(f, line):
             except UnicodeDecodeError:
                 return "refused"
         return "C22-nil-body-field-unreadable" if slot == "b" and desc.endswith(":nil") else "C22-value-conversion"
+    kind = {"nbytes": "bytes", "nstr": "str", "ni32": "i32"}.get(kind, kind)
     empty = desc in ("y:-", "c:0", "y:nil", "c:nil") or (kind == "f32" and desc == "f:2147483648") or (kind == "f64" and desc == "f:9223372036854775808")
     if om and empty:
         return "C22-omitempty-normalises"
@@ -92,7 +96,7 @@ def val_finding(f, line):
         return "C22-value-time-truncated"
     if kind == "struct":
         return "C22-struct-value-dropped"
-    if kind in ("strs", "i64s", "u32s", "map") and slot == "v":
+    if kind in ("strs", "i64s", "u32s", "map") and slot in ("v", "p"):
         return "C22-gob-nil-empty"
     return "C22-value-conversion"
 
@@ -100,6 +104,10 @@ def val_finding(f, line):
 def oracle(rep):
     for op, line in zip(rep["ops"], rep["impl"]):
         f = op.split(" ")
+        if f[0] == "upd":
+            if line == "stale":
+                return ("C22-void-overwrite-keeps-old-value", "`%s`: the second save did not replace the first value" % op)
+            f = ["val", f[1], f[2], f[3], f[5]]
         if f[0] == "val":
             if line != "same":
                 fid = val_finding(f, line)
@@ -157,7 +165,7 @@ def run(ctx):
         samples=[{"op": c.ops[i], "impl": c.impl[i]} for i in list(range(1, min(len(c.ops), 5))) + [j for j, o in enumerate(c.ops) if o.startswith("val ")][:4]],
         evaluations=len(c.ops), distinct_nontrivial=max(len(set(c.ops)) - len(c.cases), 0),
         extra_cov={"correspondence": {"domain": "C22", "op_lines": len(c.ops), "mismatching_lines": len(c.mismatch),
-                                      "op_histogram": c.op_hist, "val_replies": {k: sum(1 for o, l in zip(c.ops, c.impl) if o.startswith("val ") and l == k) for k in ("same", "nilempty", "diff", "err")},
+                                      "op_histogram": c.op_hist, "val_replies": {k: sum(1 for o, l in zip(c.ops, c.impl) if o.split(" ")[0] in ("val", "upd") and l == k) for k in ("same", "nilempty", "stale", "diff", "err")},
                                       "rt_ok": rt.count("ok"), "rt_bad": sum(1 for l in rt if l.startswith("bad")),
                                       "oracle_hits": hits, "lines_flagged_by_model": sum(1 for f in c.flags if f)}},
         trusted=["Lean 4.33.0 kernel", "axioms: propext, Classical.choice, Quot.sound", "extract/c22.go", "harness/c22.go",
